@@ -71,6 +71,28 @@ ASSUMPTIONS = [
 ]
 
 _S = {}
+_TAB = {}
+
+
+def generate(ctx):
+    """round 4: the data the model copies from the source are re-read by `ast` into Scico/Generated/LinSolveTables.lean on every run"""
+    import linsolve_translate
+
+    t = linsolve_translate.generate()
+    ctx.extra["source_tables"] = {"defaults": {n: dict(d) for n, d in t["defaults"]}, "woodbury_bind": list(t["woodbury_bind"]),
+                                  "woodbury": [list(a) for a in t["woodbury"]]}
+    return [("Scico.Generated.LinSolveTables", "defaults of cg/lstsq/bisect/golden/cg_solver and of the solver constructors, default cg/solve "
+             "keyword dicts, guarded raises of every internal_init, Woodbury branch condition: source = model tables (solverTables)")]
+
+
+def _defaults(model, fn):
+    """default arguments of `fn` as held by the MODEL (`solverTables.defaults`, driver op `tables`), evaluated as Python literals"""
+    if not _TAB:
+        import ast as _ast
+
+        r = model.call("tables")
+        _TAB.update({e[0]: {k: _ast.literal_eval(v) for k, v in e[1]} for e in r["defaults"]})
+    return _TAB[fn]
 
 
 def _setup():
@@ -1490,6 +1512,121 @@ def run_golden(ctx, model, case):
 
 
 # =============================================================================================
+# default arguments (round 4): the functions called WITHOUT options against the model run with the defaults of `solverTables`
+# (which the generated obligation pins to the source)
+
+
+def gen_defaults(rng):
+    which = str(rng.choice(["cg", "lstsq", "cg_solver", "bisect", "golden"]))
+    if which in ("cg", "lstsq", "cg_solver"):
+        n = int(rng.integers(2, 7))
+        cplx = bool(rng.integers(0, 2))
+        A = lu.hpd(rng, n, cplx, False)
+        return {"kind": "defaults", "fn": which, "n": n, "cplx": cplx, "A": tolist(A), "b": tolist(lu.rnd(rng, (n,), cplx, False))}
+    base = gen_bisect(rng) if which == "bisect" else gen_golden(rng)
+    while which == "bisect" and any(np.sign(_np_poly(base["coef"], i, base["a"][i])) == np.sign(_np_poly(base["coef"], i, base["b"][i])) for i in range(base["n"])):
+        base = gen_bisect(rng)
+    return {"kind": "defaults", "fn": which, "n": base["n"], "coef": base["coef"], "a": base["a"], "b": base["b"]}
+
+
+def run_defaults(ctx, model, case):
+    S = _setup()
+    jnp, solver = S["jnp"], S["solver"]
+    fn = case["fn"]
+    d = _defaults(model, fn)
+    ctx.count("defaults:" + fn)
+    ctx.case({"kind": "defaults", "fn": fn, "n": case["n"]}, _key(case))
+    bad = None
+    if fn in ("cg", "lstsq", "cg_solver"):
+        n, cplx = case["n"], case["cplx"]
+        dt = np.complex128 if cplx else np.float64
+        A = _arr(case["A"], cplx, (n, n))
+        b = _arr(case["b"], cplx)
+        from scico.linop import MatrixOperator
+
+        Aop = MatrixOperator(jnp.array(A, dtype=dt))
+        if fn == "cg":
+            r = solver.cg(Aop, jnp.array(b, dtype=dt))
+            if not (isinstance(r, tuple) and len(r) == 2) or not d["info"]:
+                bad = ("cg.info-default", type(r).__name__, d["info"])
+            else:
+                x, info = r
+                m = model.call("cg", dt="c" if cplx else "r", n=n, A=enc(A, cplx), M=None, b=enc(b, cplx), x0=None, linop=True,
+                               tol=f2b(d["tol"]), atol=f2b(d["atol"]), maxiter=d["maxiter"])
+                if int(info["num_iter"]) != m["num_iter"]:
+                    bad = ("cg.num_iter", int(info["num_iter"]), m["num_iter"])
+                elif not vclose(np.array(x), dec(m["x"], cplx), 100 * n * n, rtol=1e-8):
+                    bad = ("cg.x", tolist(np.array(x)), tolist(dec(m["x"], cplx)))
+        elif fn == "lstsq":
+            r = solver.lstsq(Aop, jnp.array(b, dtype=dt))
+            if isinstance(r, tuple) != bool(d["info"]):
+                bad = ("lstsq.info-default", type(r).__name__, d["info"])
+            else:
+                x = np.array(r[0] if isinstance(r, tuple) else r)
+                m = model.call("lstsq", dt="c" if cplx else "r", m=n, n=n, A=enc(A, cplx), b=enc(b, cplx), x0=enc(np.zeros(n, dtype=dt), cplx),
+                               tol=f2b(d["tol"]), atol=f2b(d["atol"]), maxiter=d["maxiter"])
+                if not vclose(x, dec(m["x"], cplx), 1000 * n * n, rtol=1e-6):
+                    bad = ("lstsq.x", tolist(x), tolist(dec(m["x"], cplx)))
+        else:
+            # 50 bodies on an n <= 6 system run far beyond convergence, where rounding noise (and underflow in the model's naive
+            # complex division) makes iterates incomparable: the default is observed through the number of calls of A (= maxiter + 1)
+            # and, by theorem C14_cgscan_exact (maxiter >= dim V), through the exact solution
+            Aj = jnp.array(A, dtype=dt)
+            calls = []
+
+            def Af(v):
+                calls.append(1)
+                return Aj @ v
+
+            with S["jax"].disable_jit():
+                x = np.array(S["inverse"].cg_solver(Af, jnp.array(b, dtype=dt)))
+            xs = np.linalg.solve(A, b)
+            if len(calls) != d["maxiter"] + 1:
+                bad = ("cg_solver.calls_of_A", len(calls), d["maxiter"] + 1)
+            elif d["maxiter"] >= n and not vclose(x, xs, 1000 * n * n, rtol=1e-7 * float(np.linalg.cond(A))):
+                bad = ("cg_solver.x", tolist(x), tolist(xs))
+    else:
+        f0 = _poly(jnp, case["coef"])
+        calls = []
+
+        def f(x):
+            calls.append(1)
+            return f0(x)
+
+        a = jnp.array(case["a"], dtype=np.float64)
+        b = jnp.array(case["b"], dtype=np.float64)
+        n = case["n"]
+        if fn == "bisect":
+            try:
+                r = solver.bisect(f, a, b)
+            except Exception as e:  # noqa: BLE001
+                ctx.disagree("linsolve.defaults.bisect.error", case, _err(e), "ok", oracle=lambda c: None)
+                return
+            m = model.call("bisect", n=n, coef=[common.fs2b(c) for c in case["coef"]], a=common.fs2b(case["a"]), b=common.fs2b(case["b"]),
+                           xtol=f2b(d["xtol"]), ftol=f2b(d["ftol"]), maxiter=d["maxiter"], range_check=d["range_check"])
+            steps = m["final"]["steps"]
+            if isinstance(r, tuple) != bool(d["full_output"]):
+                bad = ("bisect.full_output-default", type(r).__name__, d["full_output"])
+            elif len(calls) != 2 + 3 * steps:
+                bad = ("bisect.calls_of_f", len(calls), 2 + 3 * steps)
+            elif not vclose(np.array(r), np.array(common.b2fs(m["x"])), 1, 1e-12):
+                bad = ("bisect.x", tolist(np.array(r)), common.b2fs(m["x"]))
+        else:
+            r = solver.golden(f, a, b)
+            m = model.call("golden", n=n, coef=[common.fs2b(c) for c in case["coef"]], a=common.fs2b(case["a"]), b=common.fs2b(case["b"]),
+                           c=None, xtol=f2b(d["xtol"]), maxiter=d["maxiter"], csort=False)
+            steps = m["final"]["steps"]
+            if isinstance(r, tuple) != bool(d["full_output"]):
+                bad = ("golden.full_output-default", type(r).__name__, d["full_output"])
+            elif len(calls) != 2 * steps + 2:
+                bad = ("golden.calls_of_f", len(calls), 2 * steps + 2)
+            elif not vclose(np.array(r), np.array(common.b2fs(m["x"])), 1, 1e-12):
+                bad = ("golden.x", tolist(np.array(r)), common.b2fs(m["x"]))
+    if bad:
+        ctx.disagree("linsolve.defaults." + bad[0], case, bad[1], bad[2], oracle=lambda c: None)
+
+
+# =============================================================================================
 # the CG back end as selected in ADMM (LinearSubproblemSolver, scico or jax): the arguments a solver object runs CG with are the
 # documented defaults updated by ITS OWN cg_kwargs, whatever solver objects were built before (seeded C14-n1); the stream is
 # shared with the C10 adapter (same driver)
@@ -1517,14 +1654,14 @@ def oracle_kwhist(case):
 
 # =============================================================================================
 
-RUNNERS = {"kwhist": run_kwhist, "cg": run_cg, "jaxcg": run_jaxcg, "cgscan": run_cgscan, "lstsq": run_lstsq, "atad": run_atad, "atadseq": run_atadseq, "atadargs": run_atadargs, "convargs": run_convargs, "conv": run_conv, "relres": run_relres,
+RUNNERS = {"defaults": run_defaults, "kwhist": run_kwhist, "cg": run_cg, "jaxcg": run_jaxcg, "cgscan": run_cgscan, "lstsq": run_lstsq, "atad": run_atad, "atadseq": run_atadseq, "atadargs": run_atadargs, "convargs": run_convargs, "conv": run_conv, "relres": run_relres,
            "bisect": run_bisect, "golden": run_golden}
-GENS = {"kwhist": gen_kwhist, "cg": gen_cg, "jaxcg": gen_jaxcg, "cgscan": gen_cgscan, "lstsq": gen_lstsq, "atad": gen_atad, "atadseq": gen_atadseq, "atadargs": gen_atadargs, "convargs": gen_convargs, "conv": gen_conv, "relres": gen_relres,
+GENS = {"defaults": gen_defaults, "kwhist": gen_kwhist, "cg": gen_cg, "jaxcg": gen_jaxcg, "cgscan": gen_cgscan, "lstsq": gen_lstsq, "atad": gen_atad, "atadseq": gen_atadseq, "atadargs": gen_atadargs, "convargs": gen_convargs, "conv": gen_conv, "relres": gen_relres,
         "bisect": gen_bisect, "golden": gen_golden}
 ORACLES = {"kwhist": oracle_kwhist, "cg": oracle_cg, "jaxcg": oracle_jaxcg, "cgscan": oracle_cgscan, "lstsq": oracle_lstsq, "atad": oracle_atad, "atadseq": oracle_atadseq, "conv": oracle_conv,
            "bisect": oracle_bisect, "golden": oracle_golden}
 # (quick, thorough) number of generated cases per stream
-BUDGET = {"kwhist": (8, 60), "cg": (120, 1500), "jaxcg": (40, 400), "cgscan": (25, 250), "lstsq": (30, 300), "atad": (90, 1000), "atadseq": (24, 200), "atadargs": (20, 60), "convargs": (10, 30), "conv": (40, 400), "relres": (30, 200),
+BUDGET = {"defaults": (15, 100), "kwhist": (8, 60), "cg": (120, 1500), "jaxcg": (40, 400), "cgscan": (25, 250), "lstsq": (30, 300), "atad": (90, 1000), "atadseq": (24, 200), "atadargs": (20, 60), "convargs": (10, 30), "conv": (40, 400), "relres": (30, 200),
           "bisect": (60, 700), "golden": (50, 600)}
 
 
